@@ -248,6 +248,8 @@ class Thread:
         self.ended = False
         self.sys = None
         self.kept = False
+        self.stack_known = False
+        self.h_unmaps = []
 
 
 def normalise(run):
@@ -468,6 +470,7 @@ def normalise(run):
     if run.strace is not None:
         attach_strace(run, order, info, batches)
     # ---- end events
+    quiet = not (info["abort"] or info["timeout"] or run.killed)
     for t in order:
         if t.sys is not None:
             s = t.sys
@@ -475,7 +478,10 @@ def normalise(run):
                 emit(t, {"e": "rel", "r": "stack", "by": "T"})
             emit(t, {"e": "texit", "flag": True, "own": s["own"], "foreign": s["foreign"], "last": s["last"],
                      "whole": s["whole"], "disarmed": s["disarmed"]})
-        emit(t, {"e": "end", "kept": t.spawn_ok is True and t.op is None, "sys": t.sys is not None, "dv": t.ty == "dv"})
+        for r in t.h_unmaps:
+            emit(t, {"e": "rel", "r": "stack", "by": "H"})
+        emit(t, {"e": "end", "kept": t.spawn_ok is True and t.op is None, "sys": t.stack_known, "dv": t.ty == "dv",
+                 "quiet": quiet})
     return order, batches, info
 
 
@@ -503,6 +509,8 @@ def attach_strace(run, order, info, batches):
         live_stacks += 1
         if "stack" in t.addr and t.addr["stack"] != base:
             raise core.ToolError("strace/probe mismatch: thread k=%d stack %x vs mmap %x" % (t.k, t.addr["stack"], base))
+        t.stack_known = True
+        s = None
         if ci < len(clones):
             c = clones[ci]
             ci += 1
@@ -512,6 +520,14 @@ def attach_strace(run, order, info, batches):
                 t.sys = s
                 if s["own"] >= 1 and s["whole"]:
                     live_stacks -= 1
+        if s is None:
+            # no thread came out of this spawn: did the spawner itself unmap the stack again?
+            nxt = stack_maps[mi]["pos"] if mi < len(stack_maps) else 10**12
+            t.h_unmaps = [r for r in recs if r["pid"] == info["h"] and r["call"] == "munmap" and m["rpos"] < r["pos"] < nxt
+                          and _overlaps(r, base, STACK_SZ)]
+            whole = [r for r in t.h_unmaps if _hex(r["args"].split(",")[0]) == base and int(r["args"].split(",")[1]) == STACK_SZ]
+            if whole:
+                live_stacks -= 1
     for b in batches[-1:]:
         b["stacks"] = live_stacks if not run.killed else 0
 
@@ -522,6 +538,7 @@ def attach_strace(run, order, info, batches):
 DEFAULTS = {"r": "-", "by": "-", "ok": True, "how": "-", "op": "-", "res": "-", "val_ok": True, "eff_ok": True,
             "hb": False, "val": 1, "acq": False, "word": 0, "what": "-", "flag": False, "own": 0, "foreign": 0,
             "last": True, "whole": True, "disarmed": False, "kept": False, "sys": False, "dv": False, "kind": "-",
+            "quiet": True,
             "badfree": 0, "left": 0, "threads": 0, "threads0": 0, "growth": 0, "n": 0, "stacks": 0, "run": 0}
 
 
